@@ -61,7 +61,7 @@ impl<'a> G<'a> {
     }
 
     fn int(&mut self, d: u32) -> String {
-        let top = if d == 0 { 4 } else { 15 };
+        let top = if d == 0 { 4 } else { 16 };
         for _ in 0..4 {
             match self.p.below(top) {
                 0 => return format!("{}", self.p.range(0, 9)),
@@ -139,6 +139,11 @@ impl<'a> G<'a> {
                     }
                     return format!("(match Opt::Non {{ Opt::Som(v) => (v + {b}), Opt::Non => {c} }})");
                 }
+                14 => {
+                    let a = self.int(d - 1);
+                    let b = self.int(d - 1);
+                    return format!("(match ({a}, {b}) {{ (m0, m1) => (m0 - m1) }})");
+                }
                 _ => {
                     let a = self.int(d - 1);
                     let b = self.int(d - 1);
@@ -157,6 +162,17 @@ impl<'a> G<'a> {
 
     fn boolean(&mut self, d: u32) -> String {
         let top = if d == 0 { 2 } else { 7 };
+        if self.cfg.failing_ops && d > 0 && !self.ints.is_empty() && self.p.chance(1, 4) {
+            // a guard whose right operand is call-free but can fail: `v != 0 && n / v > k`
+            let v = self.ints[self.p.usize(self.ints.len())].clone();
+            let n = self.ints[self.p.usize(self.ints.len())].clone();
+            let k = self.p.range(0, 5);
+            return if self.p.chance(1, 2) {
+                format!("(({v} != 0) && (({n} / {v}) > {k}))")
+            } else {
+                format!("(({v} == 0) || (({n} / {v}) > {k}))")
+            };
+        }
         match self.p.below(top) {
             0 => {
                 let t = self.t();
@@ -201,7 +217,52 @@ impl<'a> G<'a> {
         let clos_mark = self.closures.len();
         for _ in 0..n {
             let d = self.cfg.depth;
-            match self.p.below(12) {
+            match self.p.below(17) {
+                12 => {
+                    // destructuring of an effectful tuple literal
+                    let a = self.int(d);
+                    let b = self.int(d);
+                    let (va, vb) = (self.fresh("ta"), self.fresh("tb"));
+                    if self.p.chance(1, 3) {
+                        let c = self.int(d);
+                        let vc = self.fresh("tc");
+                        s.push_str(&format!("{pad}let ({va}, {vb}, {vc}) = ({a}, {b}, {c});\n"));
+                        self.ints.push(vc);
+                    } else {
+                        s.push_str(&format!("{pad}let ({va}, {vb}) = ({a}, {b});\n"));
+                    }
+                    self.ints.push(va);
+                    self.ints.push(vb);
+                }
+                13 => {
+                    let a = self.int(d);
+                    let b = self.int(d);
+                    let (va, vb) = (self.fresh("sx"), self.fresh("sy"));
+                    s.push_str(&format!("{pad}let Pt {{ x: {va}, y: {vb} }} = Pt {{ x: {a}, y: {b} }};\n"));
+                    self.ints.push(va);
+                    self.ints.push(vb);
+                }
+                14 => {
+                    // dynamically dispatched effect in statement position
+                    let e = self.int(d);
+                    s.push_str(&format!("{pad}Eff::emit(dv, {e});\n"));
+                }
+                15 if self.cfg.failing_ops => {
+                    // division at another integer width whose result is discarded
+                    let ty = ["int8", "int16", "int64", "uint8", "uint16", "uint32", "uint64"][self.p.usize(7)];
+                    let (va, vz) = (self.fresh("wa"), self.fresh("wz"));
+                    let zero = if self.p.chance(2, 3) { 0 } else { 3 };
+                    let suf = ty.replace("uint", "u").replace("int", "i");
+                    s.push_str(&format!("{pad}let {va}: {ty} = 9{suf};\n{pad}let {vz}: {ty} = {zero}{suf};\n"));
+                    match self.p.below(3) {
+                        0 => s.push_str(&format!("{pad}let _ = {va} / {vz};\n")),
+                        1 => {
+                            let u = self.fresh("wu");
+                            s.push_str(&format!("{pad}let {u} = {va} / {vz};\n"));
+                        }
+                        _ => s.push_str(&format!("{pad}{va} / {vz};\n")),
+                    }
+                }
                 0 => {
                     let e = self.int(d);
                     s.push_str(&format!("{pad}let _ = {e};\n"));
@@ -225,7 +286,9 @@ impl<'a> G<'a> {
                     let b = self.boolean(d);
                     let x = { let n = 1 + self.p.usize(2); self.stmts(n, ind + 1) };
                     let y = { let n = 1 + self.p.usize(2); self.stmts(n, ind + 1) };
-                    s.push_str(&format!("{pad}if {b} {{\n{x}{pad}    ()\n{pad}}} else {{\n{y}{pad}    ()\n{pad}}};\n"));
+                    let t1 = if self.p.chance(1, 3) { let e = self.int(1); format!("Eff::emit(dv, {e})") } else { "()".to_string() };
+                    let t2 = if self.p.chance(1, 3) { let e = self.int(1); format!("Eff::emit(dv, {e})") } else { "()".to_string() };
+                    s.push_str(&format!("{pad}if {b} {{\n{x}{pad}    {t1}\n{pad}}} else {{\n{y}{pad}    {t2}\n{pad}}};\n"));
                 }
                 6 => {
                     // bounded loop on a private counter cell; the condition has an effect
@@ -234,8 +297,18 @@ impl<'a> G<'a> {
                     let t = self.t();
                     let body = { let n = 1 + self.p.usize(2); self.stmts(n, ind + 1) };
                     s.push_str(&format!("{pad}let {k} = ref(0);\n"));
+                    let tail = if self.p.chance(1, 2) {
+                        let e = self.int(1);
+                        match self.p.below(3) {
+                            0 => format!(";\n{pad}    Eff::emit(dv, {e})"),
+                            1 => format!(";\n{pad}    if ref_get({k}) < 2 {{ Eff::emit(dv, {e}) }} else {{ () }}"),
+                            _ => format!(";\n{pad}    match ref_get({k}) {{ 1 => Eff::emit(dv, {e}), _ => () }}"),
+                        }
+                    } else {
+                        String::new()
+                    };
                     s.push_str(&format!(
-                        "{pad}while p(\"{t}\", ref_get({k})) < {bound} {{\n{body}{pad}    ref_set({k}, ref_get({k}) + 1)\n{pad}}};\n"
+                        "{pad}while p(\"{t}\", ref_get({k})) < {bound} {{\n{body}{pad}    ref_set({k}, ref_get({k}) + 1){tail}\n{pad}}};\n"
                     ));
                 }
                 7 => {
@@ -297,7 +370,10 @@ pub fn generate(p: &mut Prng, cfg: &ConcCfg) -> String {
     s.push_str("fn pb(tag: string, v: bool) -> bool {\n    string_println(tag);\n    v\n}\n\n");
     s.push_str("fn bump(r: Ref[int32], d: int32) -> int32 {\n    ref_set(r, ref_get(r) + d);\n    ref_get(r)\n}\n\n");
     s.push_str("fn add3(a: int32, b: int32, c: int32) -> int32 {\n    a + b * c\n}\n\n");
-    s.push_str("fn main() -> unit {\n");
+    s.push_str("trait Eff {\n    fn emit(Self, int32) -> unit;\n}\n\nimpl Eff for Pt {\n    fn emit(self: Pt, v: int32) -> unit {\n        string_println(\"e\" + int32_to_string(self.x + v))\n    }\n}\n\n");
+    s.push_str("fn main() -> unit {\n    let pv = Pt { x: 1, y: 2 };\n    let dv: dyn Eff = pv;\n    let zz = 0;\n    let nn = 7;\n");
+    g.ints.push("zz".to_string());
+    g.ints.push("nn".to_string());
     for c in g.cells.clone() {
         s.push_str(&format!("    let {c} = ref({});\n", g.p.range(0, 5)));
     }
